@@ -34,6 +34,56 @@ def pattern(sc):
     return "".join("p" if o["imm"] else "n" for o in sc["ops"])
 
 
+NOOPS = ["add.0", "mul.1", "sub.0", "div.1", "u32shl.0", "u32rotl.0"]
+DECOS = [("emit", "emit.1"), ("trace", "trace.2"), ("dbg", "debug.stack"), ("adv", "adv.push_mapval"), ("comment", "# c\n ")]
+
+
+def deco_programs(ck, thorough):
+    """programs of GEN_Deco: (programs, groups) with groups[id] = (class of the erased base or None, classes of the variants, description)"""
+    cfgp = os.path.join(workdir("C08"), "GEN_Deco.cfg")
+    with open(cfgp, "w") as f:
+        f.write("CONSTANT MAXLEN = %d\nINIT Init\nNEXT Next\nCHECK_DEADLOCK FALSE\n" % (4 if thorough else 3))
+    r = tlc_or_die("GEN_Deco.tla", cfg=cfgp, cwd=os.path.join(SPEC, "gen"), timeout=1200)
+    ck.add_tlc(r)
+    cases = json_prints(r, "deco")
+    cases.sort(key=lambda c: json.dumps([c["wrap"], c["body"], c["tail"]]))
+
+    def text(elems, deco):
+        out = []
+        for i, e in enumerate(elems):
+            out.append({"N": NOOPS[i % len(NOOPS)], "O": "swap" if i % 2 else "neg", "P": "push.7", "D": deco}[e])
+        return " ".join(out)
+
+    def wrap(w, body, tail):
+        t = "neg" if tail == "O" else ""
+        return {"top": "begin\n %s %s\nend\n" % (body, t),
+                "repeat": "begin\n repeat.2\n %s\n end %s\nend\n" % (body, t),
+                "exec": "proc.f\n %s\nend\nbegin\n neg exec.f %s\nend\n" % (body, t),
+                "branch": "begin\n push.1 if.true\n %s\n else\n neg\n end %s\nend\n" % (body, t),
+                "loop": "begin\n push.0 while.true\n %s\n push.0\n end %s\nend\n" % (body, t),
+                "call": "proc.f\n %s\nend\nbegin\n call.f %s\nend\n" % (body, t)}[w]
+    progs, groups = [], {}
+    for gi, c in enumerate(cases):
+        # positions of N / O elements must not shift between a body and its erasure: render the erasure from the same indices
+        idx = [i for i, e in enumerate(c["body"]) if e != "D"]
+        er = " ".join({"N": NOOPS[i % len(NOOPS)], "O": "swap" if i % 2 else "neg", "P": "push.7"}[c["body"][i]] for i in idx)
+        base = None
+        if er:
+            base = "deco:%d:base:off" % gi
+            progs.append({"src": wrap(c["wrap"], er, c["tail"]), "kernel": None, "inputs": [], "class": base})
+        members = []
+        for dn, dt in DECOS:
+            for dbg in (False, True):
+                cls = "deco:%d:%s:%s" % (gi, dn, "on" if dbg else "off")
+                p = {"src": wrap(c["wrap"], text(c["body"], dt), c["tail"]), "kernel": None, "inputs": [], "class": cls}
+                if dbg:
+                    p["debug"] = True
+                progs.append(p)
+                members.append(cls)
+        groups[gi] = (base, members, {"wrap": c["wrap"], "body": c["body"], "tail": c["tail"]})
+    return progs, groups
+
+
 def mast_part(ck, wd, thorough):
     """T: Mast.tla's hash recipe (hash_domain(children) with domain = opcode, span = HashElems(groups)) evaluated with the
     primitives on every node of assembled programs of every control-flow shape, compared with CodeBlock::hash(),
@@ -54,7 +104,8 @@ def mast_part(ck, wd, thorough):
                 ("changed-imm", base.replace("push.3 drop", "push.9 drop"), {}),
                 ("swapped-branches", base.replace("push.3 drop call.f", "@@").replace("push.4 drop", "push.3 drop call.f").replace("@@", "push.4 drop"), {})]
     meta = [{"src": src, "kernel": None, "inputs": [], "class": "meta:" + nm, **kw} for nm, src, kw in variants]
-    allp = progs + meta
+    deco, groups = deco_programs(ck, thorough)
+    allp = progs + meta + deco
     inp = os.path.join(wd, "mast_scenarios.ndjson")
     vmtrace.write_scenarios(allp, inp)
     lines = open(inp).read().split("\n")
@@ -72,6 +123,8 @@ def mast_part(ck, wd, thorough):
         res = json.loads(line)
         ck.traces += 1
         ck.note_case("mast:" + p["src"])
+        if res["outcome"] != "ok" and p["class"].startswith("deco:"):
+            continue            # judged per group below (an erased body may be an empty block)
         if res["outcome"] != "ok":
             raise ToolError("program for the MAST recipe check does not assemble: %s | %s" % (str(res)[:200], p["src"][:200]))
         nodes += res["nodes"]
@@ -87,6 +140,30 @@ def mast_part(ck, wd, thorough):
     for c in diff:
         if hashes[c] == hashes["meta:base"]:
             ck.violation("mast:metamorphic:%s" % c, "%s does not change the program hash" % c, {"kind": "mast", "variant": c})
+    # decorator / debug-mode invariance on the generated bodies (GEN_Deco): every variant of a group hashes like its erasure
+    byclass = {p["class"]: json.loads(line) for p, line in zip(allp, open(outp))}
+    ngroups = skipped = 0
+    for gid, (basecls, members, desc) in groups.items():
+        hs = {}
+        for m in members + ([basecls] if basecls else []):
+            r_ = byclass[m]
+            if r_["outcome"] == "ok":
+                hs[m] = r_["hash"]
+            else:
+                skipped += 1
+        if basecls and basecls not in hs:
+            continue          # the erased body is not a program the assembler accepts (e.g. an empty block): nothing to compare with
+        ref = hs[basecls] if basecls else (sorted(hs.values())[0] if hs else None)
+        ngroups += 1
+        for m, h in hs.items():
+            if h != ref:
+                ck.violation("mast:deco:%s:%s" % (desc["wrap"], m.split(":")[-2]), "the program hash depends on decorators / debug mode: %s (variant %s) hashes differently from %s" % (
+                    json.dumps(desc), m, basecls or "the other variants"), {"kind": "mast", "variant": m, "group": desc})
+                break
+    if ngroups < 300:
+        raise ToolError("decorator invariance: only %d groups could be compared" % ngroups)
+    ck.extra["decorator_groups_compared"] = ngroups
+    ck.extra["decorator_variants_not_assembled"] = skipped
     ck.extra["mast_nodes_checked_against_recipe"] = nodes
     ck.extra["mast_programs"] = len(allp)
 
@@ -138,6 +215,17 @@ def run(tier, replay=None):
         ck.add_tlc(r)
         rnd = json_prints(r, "span")
         scs += rnd
+        # covering set of the batching automaton (every reachable batch shape x kind of next operation, two / three batches)
+        cfgp = os.path.join(wd, "GEN_SpanCover.cfg")
+        with open(cfgp, "w") as f:
+            f.write("CONSTANTS NB = 2 FINE = %d FULL = TRUE\nINIT Init\nNEXT Next\nVIEW Shape\nCHECK_DEADLOCK FALSE\n" % (2 if thorough else 0))
+        r = tlc_or_die("GEN_SpanCover.tla", cfg=cfgp, cwd=os.path.join(SPEC, "gen"), workers=1, timeout=3000, heap="6g")
+        ck.add_tlc(r)
+        cover = json_prints(r, "span")
+        if len(cover) < 1000:
+            raise ToolError("covering set of span patterns is unexpectedly small (%d)" % len(cover))
+        scs += cover
+        ck.extra["covering_patterns"] = len(cover)
         ck.extra["exhaustive_pattern_length"] = n_exh
         ck.extra["random_sequences"] = len(rnd)
     inp = os.path.join(wd, "span_scenarios.ndjson")
